@@ -310,6 +310,35 @@ func c07Run(w *W) {
 			w.Sleep(d)
 			w.Settle()
 			expire()
+		case k == 9 && c.c == nil && len(ctxs) < nctx+2:
+			// a context opened in the middle of the history, whatever surveys
+			// are in progress on the socket and on the other contexts: it
+			// starts without a survey and shares nothing with them
+			nc, err := s.OpenContext()
+			if err != nil {
+				w.Failf("HARNESS/ctx", "%v", err)
+				return
+			}
+			cx := &c7Ctx{idx: len(ctxs), c: nc, T: T}
+			ctxs = append(ctxs, cx)
+			w.Op("ctx%d opened", cx.idx)
+			w.Probe("context-opened-mid-history")
+			if w.Choose(simrt.SProg, 2) == 0 {
+				call := w.Do(fmt.Sprintf("ctx%d.Recv", cx.idx), func() (interface{}, error) { return recv(cx) })
+				w.Settle()
+				expire()
+				if w.Failed() {
+					return
+				}
+				if !call.Returned() {
+					w.Failf("C07/recv-blocks-without-survey", "ctx%d was just opened and has sent no survey, but its Recv blocks", cx.idx)
+					return
+				}
+				if call.Err != mangos.ErrProtoState {
+					w.Failf("C07/delivery-without-survey", "ctx%d was just opened and has sent no survey, but its Recv returned (%q, %v)", cx.idx, call.Val, errName(call.Err))
+					return
+				}
+			}
 		case k == 9: // close a context
 			if c.c == nil || c.closed {
 				continue
